@@ -196,9 +196,9 @@ static void fiber_event_wake_waiters(fiber_manager_t* manager,
   }
 }
 
-static void fiber_event_wake_sleepers(fiber_manager_t* manager,
-                                      uint64_t trigger_count) {
-  fiber_spinlock_lock(&sleep_spinlock);
+// the caller holds sleep_spinlock
+static void fiber_event_wake_sleepers_locked(fiber_manager_t* manager,
+                                             uint64_t trigger_count) {
   timer_trigger_count += trigger_count;
   FIBER_VERIF_POINT(FV_TIMER_TICKS, &timer_trigger_count, 0);
 
@@ -215,9 +215,16 @@ static void fiber_event_wake_sleepers(fiber_manager_t* manager,
       to_wake = next;
     } while (to_wake);
   }
+}
 
+#if !defined(__linux__)
+static void fiber_event_wake_sleepers(fiber_manager_t* manager,
+                                      uint64_t trigger_count) {
+  fiber_spinlock_lock(&sleep_spinlock);
+  fiber_event_wake_sleepers_locked(manager, trigger_count);
   fiber_spinlock_unlock(&sleep_spinlock);
 }
+#endif
 
 static int fiber_poll_events_internal(uint32_t seconds, uint32_t useconds) {
 #if defined(__linux__)
@@ -241,15 +248,22 @@ static int fiber_poll_events_internal(uint32_t seconds, uint32_t useconds) {
   for (i = 0; i < count; ++i) {
     const int the_fd = events[i].data.fd;
     if (the_fd == timer_fd) {
+      // consume the ticks and add them to timer_trigger_count in one step
+      // under the sleep lock: a fiber_sleep() that slips in between would
+      // compute its wake time from a tick base that is about to jump, and
+      // wake up that many ticks early
+      fiber_spinlock_lock(&sleep_spinlock);
       uint64_t timer_count = 0;
       const int ret =
           fibershim_read(timer_fd, &timer_count, sizeof(timer_count));
       if (ret != sizeof(timer_count)) {
         assert(errno == EWOULDBLOCK || errno == EAGAIN);
+        fiber_spinlock_unlock(&sleep_spinlock);
         continue;
       }
       FIBER_VERIF_POINT(FV_TIMER_READ, &timer_count, 0);
-      fiber_event_wake_sleepers(manager, timer_count);
+      fiber_event_wake_sleepers_locked(manager, timer_count);
+      fiber_spinlock_unlock(&sleep_spinlock);
     } else {
       fd_wait_info_t* const info = &wait_info[the_fd];
       fiber_spinlock_lock(&info->spinlock);
